@@ -473,8 +473,13 @@ fn main() {
                 for (k, kind) in kinds.iter().enumerate() {
                     i += 1;
                     let class = if *kind == "rulegen" { "rulegen" } else if kind.starts_with("validate-console") { "console" } else { "bytes" };
-                    let line = json!({"i": i, "cmd": "lib", "mode": kind, "class": class, "where": "in-process", "job": j,
-                                      "runs": res[j][k]});
+                    let mut line = json!({"i": i, "cmd": "lib", "mode": kind, "class": class, "where": "in-process", "job": j,
+                                          "runs": res[j][k]});
+                    // keep the inputs of a job whose repetitions differ (for the replay file)
+                    let differs = res[j][k].iter().any(|r| r["out"] != res[j][k][0]["out"]);
+                    if differs {
+                        line["inputs"] = json!({"rules": jobs[j].0, "data": jobs[j].1, "template": jobs[j].2});
+                    }
                     writeln!(f, "{}", line).unwrap();
                 }
             }
